@@ -200,6 +200,18 @@ theorem decodeLs_encodeNames (ps : List Bytes) :
     simp
 
 
+/-! What the proofs need of the byte strings extracted from `protocol.rs` (re-checked against the
+regenerated values on every run). -/
+
+/-- The header line is the header protocol name followed by a line feed. -/
+theorem msgMultistream_eq : msgMultistream = protoMultistream ++ [10] := by decide
+/-- `na\n` and `ls\n` cannot be mistaken for a protocol line. -/
+theorem msgNa_head : msgNa.head? ≠ some 47 := by decide
+theorem msgLs_head : msgLs.head? ≠ some 47 := by decide
+/-- The three fixed lines are distinct, non-empty and end with a line feed. -/
+theorem fixed_lines : msgMultistream ≠ msgNa ∧ msgMultistream ≠ msgLs ∧ msgNa ≠ msgLs ∧
+    msgMultistream.getLast? = some 10 ∧ msgNa.getLast? = some 10 ∧ msgLs.getLast? = some 10 := by decide
+
 theorem decode_encode_protocol (p : Bytes) (h : ValidName p) :
     Msg.decode (Msg.protocol p).encode = .ok (.protocol p) := by
   obtain ⟨hhead, hnl, hne⟩ := h
@@ -211,9 +223,12 @@ theorem decode_encode_protocol (p : Bytes) (h : ValidName p) :
   subst hc
   have h1 : (47 :: t) ++ [10] ≠ msgMultistream := by
     intro heq
+    rw [msgMultistream_eq] at heq
     exact hne (List.append_cancel_right heq)
-  have h2 : (47 :: t) ++ [10] ≠ msgNa := by simp [msgNa]
-  have h3 : (47 :: t) ++ [10] ≠ msgLs := by simp [msgLs]
+  have h2 : (47 :: t) ++ [10] ≠ msgNa := by
+    intro heq; exact msgNa_head (by rw [← heq]; rfl)
+  have h3 : (47 :: t) ++ [10] ≠ msgLs := by
+    intro heq; exact msgLs_head (by rw [← heq]; rfl)
   have hcond : ((47 :: t) ++ [10]).head? = some 47 ∧ ((47 :: t) ++ [10]).getLast? = some 10 ∧
       ¬ (10 ∈ ((47 :: t) ++ [10]).dropLast) := by
     refine ⟨by simp, List.getLast?_concat, ?_⟩
